@@ -104,3 +104,52 @@ def reclaim(case, res):
         b.finale(shutdown=True)
         return S.ops[:25]
     sim_case(case, res, body)
+
+
+STARTUP_CALLS = [("socket", 5), ("setsockopt", 8), ("fcntl", 10), ("bind", 5), ("listen", 5), ("epoll_create", 1), ("epoll_ctl", 5)]
+
+
+@scenario("startup")
+def startup(case, res):
+    """a start-up call fails: the daemon must give up cleanly (or carry on) without leaking or misusing a descriptor"""
+    import errno as E
+    from . import build
+    from .sim import Sim, DaemonDied, DaemonExited, Hang, crash_key
+    prm = case["params"]
+    call, nth, local = prm["call"], prm["nth"], prm["local"]
+    err = {"socket": E.EMFILE, "setsockopt": E.ENOPROTOOPT, "fcntl": E.EBADF, "bind": E.EADDRINUSE, "listen": E.EADDRINUSE, "epoll_create": E.EMFILE, "epoll_ctl": E.ENOMEM}[call]
+    binary = build.build(config=case.get("config", "default"), lane="asan")
+    res.sample = dict(prm)
+    try:
+        sim = Sim(binary, args=("-f", "-l") if local else ("-f",), startup_inject="%s:%d:%d" % (call, nth, err), timeout=30)
+    except (DaemonDied, Hang) as e:
+        res.viol.append(("crash/daemon-vanished-at-startup:%s" % call, str(e)))
+        return
+    fired = False
+    try:
+        st = sim.stat()
+        fired = st["injects"][call][1] > 0
+        t = sim.taps()
+        for h in t["hygiene"]:
+            res.viol.append(("res/fd-hygiene:%s-%s-%s" % (h["op"], h["kind"], h["state"]), json.dumps(h)[:300]))
+        if sim.exited is None:
+            # the failure did not stop the start-up: it must be a working daemon; then stop it
+            sim.settle()
+            r = sim.sigterm()
+            t = sim.taps()
+            for h in t["hygiene"]:
+                res.viol.append(("res/fd-hygiene:%s-%s-%s" % (h["op"], h["kind"], h["state"]), json.dumps(h)[:300]))
+            st = sim.stat()
+        left = {k: v for k, v in st["fds"].items() if v}
+        if left:
+            res.viol.append(("res/descriptors-open-after-failed-startup:" + "+".join(sorted(left)), "%s #%d%s: %r" % (call, nth, " -l" if local else "", left)))
+        if st["heap"] != 0:
+            res.viol.append(("res/heap-accounted-after-failed-startup", "%s #%d: %d bytes" % (call, nth, st["heap"])))
+        res.stats["startup_faults_fired" if fired else "startup_faults_not_reached"] += 1
+        res.sigs.add(("startup", call, nth if fired else -1, local, sim.exited is not None))
+    except DaemonDied:
+        pass
+    rc, errtxt = sim.finish()
+    k = crash_key(rc if not (fired and rc in (0, 1)) else 0, errtxt)
+    if k:
+        res.viol.append(("crash/" + k, errtxt[:2500]))
